@@ -813,10 +813,45 @@ fn build_c08(cs: &Json) -> Result<Context> {
 }
 
 /// c08-run <cases.ndjson> <out.ndjson>
+/// Makes `n` custom-operation calls that the builder must reject; returns how many were rejected.
+fn rejected_custom_op_prelude(n: usize) -> usize {
+    use ciphercore_base::custom_ops::CustomOperation;
+    use ciphercore_base::data_types::{array_type, scalar_type, BIT, INT32};
+    use ciphercore_base::graphs::create_context;
+    use ciphercore_base::ops::comparisons::GreaterThan;
+    use ciphercore_base::ops::min_max::{Max, Min};
+    use ciphercore_base::ops::multiplexer::Mux;
+    let mut rejected = 0;
+    for k in 0..n {
+        let r = catch(std::panic::AssertUnwindSafe(|| -> ciphercore_base::errors::Result<()> {
+            let c = create_context()?;
+            let g = c.create_graph()?;
+            let a = g.input(array_type(vec![4], BIT))?;
+            let b = g.input(scalar_type(INT32))?;
+            match k % 4 {
+                0 => g.custom_op(CustomOperation::new(Max { signed_comparison: true }), vec![a, b])?,
+                1 => g.custom_op(CustomOperation::new(Min { signed_comparison: false }), vec![a])?,
+                2 => g.custom_op(CustomOperation::new(GreaterThan { signed_comparison: false }), vec![b.clone(), b])?,
+                _ => g.custom_op(CustomOperation::new(Mux {}), vec![b.clone(), a, b])?,
+            };
+            Ok(())
+        }));
+        if !matches!(r, Ok(Ok(()))) {
+            rejected += 1;
+        }
+    }
+    rejected
+}
+
 fn cmd_c08_run(args: &[String]) {
     let cases = read_ndjson(&args[0]);
     let mut out = std::io::BufWriter::new(std::fs::File::create(&args[1]).unwrap());
     let mut re = RefEval { ev: SimpleEvaluator::new(None).unwrap(), alone: Default::default() };
+    // History before the cases: the property promises that EVERY context whose nodes type-check can be
+    // instantiated, whatever happened before. So first make a batch of custom-operation calls that are
+    // rejected (wrong arity / wrong argument types) in unrelated contexts, on this very thread.
+    let rejected = rejected_custom_op_prelude(48);
+    eprintln!("c08-run: {} rejected custom_op calls made before the cases", rejected);
     for cs in cases {
         let mut rec = json!({"id": cs["id"], "shape": cs["shape"], "roots": cs["roots"], "built": false, "pass_ok": false, "err": "",
             "custom_before": 0, "custom_after": 0, "graphs_before": 0, "graphs_after": 0, "names": [],
